@@ -97,8 +97,34 @@ pub fn gen(args: &[String]) -> i32 {
     0
 }
 
+/// Object-oriented cross-file material (inheritance, interfaces, aliases, constants used in bounds):
+/// four roles of file, each with same-length variants selected by `bits`; for the specification these
+/// contents are opaque (only incremental = fresh is judged).
+fn oop_text(idx: usize, role: usize, bits: u32) -> String {
+    let b = |k: u32, x: &'static str, y: &'static str| if bits >> k & 1 == 0 { x } else { y };
+    match role % 4 {
+        0 => format!("(* text {idx} *)\nINTERFACE IfcA\nMETHOD GetSpeed : DINT\nEND_METHOD\nEND_INTERFACE\nINTERFACE IfcB\nMETHOD GetOther : BOOL\nEND_METHOD\nEND_INTERFACE\n\
+FUNCTION_BLOCK BaseA\nVAR PUBLIC\n  va : {};\nEND_VAR\nMETHOD PUBLIC GetSpeed : DINT\nGetSpeed := DINT#1;\nEND_METHOD\nEND_FUNCTION_BLOCK\n\
+FUNCTION_BLOCK BaseB\nVAR PUBLIC\n  vb : BOOL;\nEND_VAR\nMETHOD PUBLIC GetOther : BOOL\nGetOther := vb;\nEND_METHOD\nEND_FUNCTION_BLOCK\n\
+TYPE Alias1 : {}; END_TYPE\nTYPE Rec1 : STRUCT\n  f1 : {};\n  f2 : INT;\nEND_STRUCT END_TYPE\n", b(0, "DINT", "BOOL"), b(1, "DINT", "BOOL"), b(2, "DINT", "BOOL")),
+        1 => format!("(* text {idx} *)\nFUNCTION_BLOCK Derived EXTENDS Base{} IMPLEMENTS Ifc{}\nVAR PUBLIC\n  extra : Alias1;\nEND_VAR\nEND_FUNCTION_BLOCK\n\
+FUNCTION_BLOCK Leaf EXTENDS {}\nMETHOD PUBLIC Twice : DINT\nTwice := DINT#2;\nEND_METHOD\nEND_FUNCTION_BLOCK\n", b(0, "A", "B"), b(1, "A", "B"), b(2, "Derived", "BaseA  ")),
+        2 => format!("(* text {idx} *)\nPROGRAM Use{idx}\nVAR\n  d : {};\n  x : DINT;\n  y : BOOL;\n  a : Alias1;\n  r : Rec1;\nEND_VAR\nx := d.GetSpeed();\ny := d.GetOther();\nx := d.{};\na := x;\nr.f1 := x;\nx := d.Twice();\nEND_PROGRAM\n",
+                     b(0, "Derived", "Leaf   "), b(1, "va", "vb")),
+        _ => format!("(* text {idx} *)\nCONFIGURATION Cfg{idx}\nVAR_GLOBAL CONSTANT\n  Lim : DINT := {};\nEND_VAR\nVAR_GLOBAL\n  G1 : {};\nEND_VAR\nEND_CONFIGURATION\n\
+PROGRAM Ext{idx}\nVAR_EXTERNAL CONSTANT\n  Lim : DINT;\nEND_VAR\nVAR_EXTERNAL\n  G1 : {};\nEND_VAR\nVAR\n  arr : ARRAY[0..{}] OF INT;\n  e : (Red, Green) := {};\nEND_VAR\narr[3] := 1;\nG1 := Lim;\nEND_PROGRAM\n",
+                     b(0, "1", "5"), b(1, "DINT", "BOOL"), b(2, "DINT", "BOOL"), b(3, "2", "4"), b(0, "Red  ", "Green")),
+    }
+}
+fn oop_entry(idx: usize, role: usize, bits: u32) -> J {
+    json!({"shape": "oop", "decls": [], "refs": [], "opaque": true, "text": oop_text(idx, role, bits), "role": role, "bits": bits, "idx": idx})
+}
+
 fn gen_entry(rng: &mut StdRng, idx: usize, soups: bool) -> J {
     let r = rng.gen_range(0..100);
+    if soups && (14..34).contains(&r) {
+        return oop_entry(idx, rng.gen_range(0..4), rng.gen_range(0..16));
+    }
     if r < 7 {
         return json!({"shape": "empty", "decls": [], "refs": [], "opaque": false});
     }
@@ -206,6 +232,9 @@ fn gen_script(rng: &mut StdRng, n: usize) -> J {
         let base: Option<J> = if i > 0 && rng.gen_bool(0.3) { Some(cat[rng.gen_range(0..i)].clone()) } else { None };
         match base {
             Some(b) if b["shape"] == "ok" && b["opaque"] == json!(false) => cat.push(twin(rng, &b)),
+            // the same text with ONE same-length variant flipped (EXTENDS BaseA -> BaseB, DINT -> BOOL, ...)
+            Some(b) if b["shape"] == "oop" => cat.push(oop_entry(b["idx"].as_u64().unwrap() as usize, b["role"].as_u64().unwrap() as usize,
+                                                                  b["bits"].as_u64().unwrap() as u32 ^ (1 << rng.gen_range(0..4)))),
             _ => cat.push(gen_entry(rng, i + 1, soups)),
         }
     }
@@ -265,14 +294,11 @@ enum Ans {
     Types(Vec<(u32, Option<u32>, Option<TypeId>)>),
 }
 impl Ans {
+    /// Equality of two answers is judged on their canonical text (Debug rendering, maps in key order), not
+    /// with the `PartialEq` of the answer types: that is the very relation salsa uses to decide that a
+    /// recomputed result "did not change", so a hole in it must not blind the comparison as well.
     fn same(&self, o: &Ans) -> bool {
-        match (self, o) {
-            (Ans::Diags(a), Ans::Diags(b)) => **a == **b,
-            (Ans::Table(a), Ans::Table(b)) => **a == **b,
-            (Ans::Analysis(a, c), Ans::Analysis(b, d)) => **a == **b && **c == **d,
-            (Ans::Types(a), Ans::Types(b)) => a == b,
-            _ => false,
-        }
+        std::mem::discriminant(self) == std::mem::discriminant(o) && self.canon() == o.canon()
     }
     fn canon(&self) -> String {
         match self {
